@@ -2,6 +2,8 @@ import PikaVerif.Model.Shared
 import PikaVerif.Model.SharedLife
 import PikaVerif.Model.WhenAll
 import PikaVerif.Model.WhenAllLife
+import PikaVerif.Model.SchedFromLife
+import PikaVerif.Model.LetLife
 import Driver.Util
 /-!
 Driver for the shared-state model (C03, engine E1): hook-event logs of `harness/e1/split.cpp`
@@ -411,10 +413,284 @@ def runWA (c : Case) (ls : List Line) : String :=
       else s!"final status {c.status}"
     s!"case {c.id} accept {evs.length} ; {fin} ; {monS}"
 
+/-! ### schedule_from (C03x)
+
+`kind=schedule_from`: the real `schedule_from` over the harness' manual leaf (counted value type) and manual
+scheduler.  Lines -> events of `Model/SchedFromLife.lean`: `inv.start` = `start`, `fire.* 0` = `pred`, `sf.store`
+(copy / move construction of the value inside the operation state) = `store`, `sf.conn` (constructor of the
+scheduler's operation state) = `conn`, `sf.sstart` = `sstart`, `fire.* 1` = `sch`, `sf.sopdtor` (destructor of the
+scheduler's operation state) = `reset`, `rcv.*` = `fwd`, `ret`, `done`.  Not model events: the harness' requests
+(`inv.complete`, `inv.sched`, `ret.pending`), the pure preemption point `sf.armed`, `life.oprel`, and `sf.tsdtor`
+(destruction of the stored value: part of the destruction of the operation state inside `fwd`; counted and
+compared with the model at the end). -/
+
+def sfSig (ch : Nat) (b : Int) : SchedFromLife.Sig :=
+  if ch == 0 then .value b.toNat else if ch == 1 then .stopped else .error b.toNat
+
+def toEventsSF (ls : List Line) : List (Option SchedFromLife.Ev × String) :=
+  ls.filterMap (fun l =>
+    let t := l.tid
+    let ev (e : SchedFromLife.Ev) : Option (Option SchedFromLife.Ev × String) := some (some e, l.raw)
+    let comp (ch : Nat) : Option (Option SchedFromLife.Ev × String) :=
+      if l.a == 0 then ev (.pred t (sfSig ch l.b)) else if l.a == 1 then ev (.sch t (sfSig ch l.b)) else some (none, l.raw)
+    match l.site with
+    | "sl.lock" | "ag.yield" | "life.oprel" | "inv.complete" | "inv.sched" | "ret.pending" | "sf.armed" | "sf.tsdtor" => none
+    | "inv.start" => ev (.start t)
+    | "fire.value" => comp 0
+    | "fire.stopped" => comp 1
+    | "fire.error" => comp 2
+    | "sf.store" => ev (.store t true)
+    -- sthrow=1: the copy / move of the value throws; the model's `store t false` = std::terminate
+    | "lt.storethrow" => ev (.store t false)
+    | "sf.conn" => ev (.conn t true)
+    | "sf.sstart" => ev (.sstart t)
+    | "sf.sopdtor" => ev (.reset t)
+    | "rcv.value" => ev (.fwd t (.value l.b.toNat))
+    | "rcv.stopped" => ev (.fwd t .stopped)
+    | "rcv.error" => ev (.fwd t (.error l.b.toNat))
+    | "ret" => ev (.ret t)
+    | "done" => ev (.tdone t)
+    | _ => some (none, l.raw))
+
+/-- C03x monitors, from the raw log only: exactly the denoted completion, once; the scheduler's operation state is
+    destroyed before the downstream completion; after the downstream completion nothing but the destruction of the
+    stored value (self-deleting operation state) happens to the operation state; every stored object is destroyed
+    at most once, exactly once when the operation state is gone; nothing faults on the destroyed operation state. -/
+def monitorsSF (c : Case) (ls : List Line) : List String :=
+  let cnt (site : String) : Nat := (ls.filter (·.site == site)).length
+  let rcvs := ls.filter (fun l => l.site.startsWith "rcv.")
+  let f0 := (ls.filter (fun l => l.site.startsWith "fire." && l.a == 0))
+  let f1 := (ls.filter (fun l => l.site.startsWith "fire." && l.a == 1))
+  let m0 := if ls.any (·.site == "life.touch-after-release") then
+      ["the schedule_from operation state was accessed after the downstream completion destroyed it (touch after release; guard fault)"]
+    else if ls.any (·.site == "life.segv") then ["segmentation fault outside the guarded operation state"] else []
+  let m1 := if c.status == "ok" then [] else
+    if ls.any (·.site == "lt.storethrow") then
+      [s!"run ended with status '{c.status}': an exception thrown while storing the predecessor's values terminated the process (set_value_predecessor_sender is noexcept without try/catch); the composition denotes set_error with that exception"]
+    else [s!"run ended with status '{c.status}'"]
+  let m2 := if f0.length > 1 || f1.length > 1 then ["harness: predecessor / scheduler completed twice"] else []
+  let want : Option (String × Int) := match f0.head?, f1.head? with
+    | none, _ => none
+    | some p, q =>
+      if p.site != "fire.value" then some (p.site.replace "fire." "rcv.", if p.site == "fire.stopped" then 0 else p.b)
+      else match q with
+        | none => none
+        | some q => if q.site == "fire.value" then some ("rcv.value", p.b)
+                    else some (q.site.replace "fire." "rcv.", if q.site == "fire.stopped" then 0 else q.b)
+  let m3 := if c.status != "ok" then [] else match want, rcvs with
+    | none, [] => []
+    | none, r :: _ => [s!"{r.site} {r.b} delivered although the adaptor has nothing to deliver yet"]
+    | some (w, v), [] => [s!"no downstream completion, expected {w} {v}"]
+    | some (w, v), [r] => if r.site == w && r.b == v then [] else [s!"{r.site} {r.b} delivered, the composition denotes {w} {v}"]
+    | some _, _ => [s!"{rcvs.length} downstream completions (exactly one expected)"]
+  -- everything after the first downstream completion
+  let rec after : List Line → Option (Line × List Line)
+    | [] => none
+    | l :: rest => if l.site.startsWith "rcv." then some (l, rest) else after rest
+  let m4 := match after ls with
+    | none => []
+    | some (r, rest) =>
+      let late := rest.filter (fun l => l.site.startsWith "fire." || l.site.startsWith "rcv." ||
+        ["sf.store", "sf.conn", "sf.sstart", "sf.sopdtor", "inv.start"].contains l.site)
+      let a := match late.head? with
+        | some l => [s!"thread {l.tid}: {l.site} after the downstream completion ({r.site} by thread {r.tid}): the forwarding call is not the last access to the operation state"]
+        | none => []
+      let b := if (rest.filter (·.site == "sf.tsdtor")).any (fun l => c.get "life" != "1" || l.tid != r.tid) then
+          ["stored value destroyed by somebody else than the self-deleting downstream receiver"] else []
+      a ++ b
+  let m5 := (if cnt "sf.store" > 1 then [s!"values stored {cnt "sf.store"} times"] else []) ++
+    (if cnt "sf.conn" > 1 then [s!"scheduler operation state constructed {cnt "sf.conn"} times"] else []) ++
+    (if cnt "sf.sopdtor" > cnt "sf.conn" then [s!"scheduler operation state constructed {cnt "sf.conn"} time(s), destroyed {cnt "sf.sopdtor"} time(s)"] else []) ++
+    (if cnt "sf.tsdtor" > cnt "sf.store" then [s!"stored value constructed {cnt "sf.store"} time(s), destroyed {cnt "sf.tsdtor"} time(s)"] else []) ++
+    (if !rcvs.isEmpty && cnt "sf.sopdtor" != cnt "sf.conn" then
+      ["downstream completion issued while the scheduler's operation state is still alive (reset must precede the forwarding)"] else [])
+  let m6 := if c.get "life" != "1" then [] else
+    match (ls.filter (·.site == "life.oprel")).getLast? with
+    | none => if c.status == "ok" then ["life=1 case without a life.oprel note"] else []
+    | some l =>
+      if l.a > 1 then [s!"operation state destroyed {l.a} times"]
+      else if c.status == "ok" && !rcvs.isEmpty && (l.a != 1 || cnt "sf.tsdtor" != cnt "sf.store") then
+        [s!"completed with a self-deleting receiver: operation state destroyed {l.a} time(s), stored value constructed {cnt "sf.store"} / destroyed {cnt "sf.tsdtor"} (exactly once expected)"]
+      else []
+  m0 ++ m1 ++ m2 ++ m3 ++ m4 ++ m5 ++ m6
+
+def runSF (c : Case) (ls : List Line) : String :=
+  let evs := toEventsSF ls
+  let mon := monitorsSF c ls
+  let monS := if mon.isEmpty then "monitors ok" else "monitors FAIL: " ++ " | ".intercalate mon
+  let cfg : SchedFromLife.Cfg := { selfdel := c.get "life" == "1", swapV := false, swapE := false, swapS := false, poison := true }
+  match accept SchedFromLife.step (SchedFromLife.init cfg) evs 0 with
+  | .error (i, raw) => s!"case {c.id} reject {i} [{raw}] ; {monS}"
+  | .ok s =>
+    let cnt (site : String) : Nat := (ls.filter (·.site == site)).length
+    let rcvs := ls.filter (fun l => l.site.startsWith "rcv.")
+    -- the model's history, about which the theorems speak, must say what the run shows
+    let countsOk := s.tsCtor == cnt "sf.store" && s.tsDtor == cnt "sf.tsdtor" && s.sopCtor == cnt "sf.conn" &&
+      s.sopDtor == cnt "sf.sopdtor" && s.delivered == rcvs.length
+    let relOk := match (ls.filter (·.site == "life.oprel")).getLast? with
+      | none => c.get "life" != "1" || c.status != "ok"
+      | some l => l.a.toNat == s.nfree && (l.a == 1) == s.freed
+    -- C03x_sf_exactly_one_completion at the final state
+    let doneOk := s.predSig.isNone || (s.sopArmed && s.schSig.isNone) || s.delivered == 1
+    let resOk := s.delivered == 0 || (s.result.isSome && s.result == SchedFromLife.expected s)
+    let fin := if c.status == "ok" then
+        (if s.uaf then "final MISMATCH: model reached touch-after-release"
+         else if s.aborted then "final MISMATCH: model aborted"
+         else if !countsOk then s!"final MISMATCH: model counters (ts {s.tsCtor}/{s.tsDtor}, scheduler op {s.sopCtor}/{s.sopDtor}, delivered {s.delivered}) disagree with the run"
+         else if !relOk then s!"final MISMATCH: model freed={s.freed} nfree={s.nfree} disagrees with the run's life.oprel"
+         else if !doneOk then "final MISMATCH: everything completed but the model has no downstream completion"
+         else if !resOk then "final MISMATCH: model result is not the denoted completion"
+         else if (List.range c.threads.length).all (fun t => s.pc t == .fin) then "final ok"
+         else "final MISMATCH: run ended but model threads are not finished")
+      else if c.status == "abort" then
+        (if s.aborted then "final aborted-as-modelled" else "final MISMATCH: abort not modelled")
+      else s!"final status {c.status}"
+    s!"case {c.id} accept {evs.length} ; {fin} ; {monS}"
+
+/-! ### let_value / let_error (C03x)
+
+`kind=let_value|let_error`: the real adaptor over the harness' manual leaf (counted value), a user function that
+logs its call and returns the harness' successor sender.  Lines -> events of `Model/LetLife.lean`: `inv.start` =
+`start`, `fire.* 0` = `pred`, `sf.store` = `store none`, `lt.storethrow e` = `store (some e)`, `lt.call` = `call none`,
+`lt.callthrow v e` = `call (some e)`, `lt.conn` = `conn none`, `lt.sstart` = `sstart`, `fire.* 1` immediately followed
+by `rcv.*` of the same thread = `succ` (the successor completes the downstream receiver it owns), any other `rcv.*`
+= `fwd`.  let_error stores an `exception_ptr` (no observable copy): `store none` is supplied in front of the
+`lt.call` / `lt.callthrow` line.  Dropped and counted: `lt.sopdtor`, `sf.tsdtor` (destruction of the operation state
+inside the completion), the harness' requests, `sf.armed`, `life.oprel`. -/
+
+/-- one line: the events it stands for, and whether it is a completion of the successor that must be followed by
+    the downstream receiver's line -/
+def lineLT (onErr : Bool) (l : Line) : List (Option LetLife.Ev × String) × Option Line :=
+  let t := l.tid
+  let ev (e : LetLife.Ev) : List (Option LetLife.Ev × String) × Option Line := ([(some e, l.raw)], none)
+  let pre : List (Option LetLife.Ev × String) := if onErr then [(some (.store t none), l.raw)] else []
+  match l.site with
+  | "sl.lock" | "ag.yield" | "life.oprel" | "inv.complete" | "inv.sched" | "ret.pending" | "sf.armed" | "sf.tsdtor"
+  | "lt.sopdtor" => ([], none)
+  | "inv.start" => ev (.start t)
+  | "sf.store" => ev (.store t none)
+  | "lt.storethrow" => ev (.store t (some l.a.toNat))
+  | "lt.call" => (pre ++ [(some (.call t none), l.raw)], none)
+  | "lt.callthrow" => (pre ++ [(some (.call t (some l.b.toNat)), l.raw)], none)
+  | "lt.conn" => ev (.conn t none false)
+  | "lt.sstart" => ev (.sstart t)
+  | "rcv.value" => ev (.fwd t (.value l.b.toNat))
+  | "rcv.stopped" => ev (.fwd t .stopped)
+  | "rcv.error" => ev (.fwd t (.error l.b.toNat))
+  | "ret" => ev (.ret t)
+  | "done" => ev (.tdone t)
+  | "fire.value" | "fire.stopped" | "fire.error" =>
+    if l.a == 0 then ev (.pred t (sfSig ((chOfSite l.site).getD 0) l.b)) else ([], some l)
+  | _ => ([(none, l.raw)], none)
+
+def toEventsLT (onErr : Bool) : Option Line → List Line → List (Option LetLife.Ev × String)
+  | none, [] => []
+  | some f, [] => [(none, f.raw)]
+  | some f, r :: rest =>
+    if r.tid == f.tid && r.site.startsWith "rcv." then
+      (some (.succ r.tid (sfSig ((chOfSite r.site).getD 0) r.b)), f.raw ++ " / " ++ r.raw) :: toEventsLT onErr none rest
+    else (none, f.raw) :: toEventsLT onErr none rest
+  | none, l :: rest => (lineLT onErr l).1 ++ toEventsLT onErr (lineLT onErr l).2 rest
+
+/-- C03x monitors for the let kinds, from the raw log only. -/
+def monitorsLT (c : Case) (ls : List Line) : List String :=
+  let onErr := c.get "kind" == "let_error"
+  let cnt (site : String) : Nat := (ls.filter (·.site == site)).length
+  let rcvs := ls.filter (fun l => l.site.startsWith "rcv.")
+  let f0 := (ls.filter (fun l => l.site.startsWith "fire." && l.a == 0))
+  let f1 := (ls.filter (fun l => l.site.startsWith "fire." && l.a == 1))
+  let asRcv (f : Line) : String × Int := (f.site.replace "fire." "rcv.", if f.site == "fire.stopped" then 0 else f.b)
+  let m0 := if ls.any (·.site == "life.touch-after-release") then
+      ["the let_value / let_error operation state was accessed after the downstream completion destroyed it (touch after release; guard fault)"]
+    else if ls.any (·.site == "life.segv") then ["segmentation fault outside the guarded operation state"] else []
+  let m1 := if c.status == "ok" then [] else [s!"run ended with status '{c.status}'"]
+  let want : Option (String × Int) := match f0.head? with
+    | none => none
+    | some p =>
+      let storedCh := if onErr then "fire.error" else "fire.value"
+      if p.site != storedCh then some (asRcv p)
+      else if ls.any (·.site == "lt.storethrow") then some ("rcv.error", 41)
+      else if ls.any (·.site == "lt.callthrow") then some ("rcv.error", 42)
+      else f1.head?.map asRcv
+  let m3 := if c.status != "ok" then [] else match want, rcvs with
+    | none, [] => []
+    | none, r :: _ => [s!"{r.site} {r.b} delivered although the adaptor has nothing to deliver yet"]
+    | some (w, v), [] => [s!"no downstream completion, expected {w} {v}"]
+    | some (w, v), [r] => if r.site == w && r.b == v then [] else [s!"{r.site} {r.b} delivered, the composition denotes {w} {v}"]
+    | some _, _ => [s!"{rcvs.length} downstream completions (exactly one expected)"]
+  -- the user function reads the stored payload through the reference it is given
+  let m3b := match f0.head?, (ls.filter (fun l => l.site == "lt.call" || l.site == "lt.callthrow")).head? with
+    | some p, some cl => if cl.a == p.b then [] else [s!"the user function saw the payload {cl.a}, the predecessor sent {p.b}"]
+    | _, _ => []
+  let rec after : List Line → Option (Line × List Line)
+    | [] => none
+    | l :: rest => if l.site.startsWith "rcv." then some (l, rest) else after rest
+  let m4 := match after ls with
+    | none => []
+    | some (r, rest) =>
+      let late := rest.filter (fun l => l.site.startsWith "fire." || l.site.startsWith "rcv." ||
+        ["sf.store", "lt.storethrow", "lt.call", "lt.callthrow", "lt.conn", "lt.sstart", "inv.start"].contains l.site)
+      let a := match late.head? with
+        | some l => [s!"thread {l.tid}: {l.site} after the downstream completion ({r.site} by thread {r.tid}): the completion is not the last access to the operation state"]
+        | none => []
+      let b := if (rest.filter (fun l => l.site == "sf.tsdtor" || l.site == "lt.sopdtor")).any (fun l => c.get "life" != "1" || l.tid != r.tid) then
+          ["stored value / successor operation state destroyed by somebody else than the self-deleting downstream receiver"] else []
+      a ++ b
+  let m5 := (if cnt "sf.store" > 1 then [s!"values stored {cnt "sf.store"} times"] else []) ++
+    (if cnt "lt.conn" > 1 then [s!"successor operation state constructed {cnt "lt.conn"} times"] else []) ++
+    (if cnt "lt.sopdtor" > cnt "lt.conn" then [s!"successor operation state constructed {cnt "lt.conn"} time(s), destroyed {cnt "lt.sopdtor"} time(s)"] else []) ++
+    (if cnt "sf.tsdtor" > cnt "sf.store" then [s!"stored value constructed {cnt "sf.store"} time(s), destroyed {cnt "sf.tsdtor"} time(s)"] else []) ++
+    (match after ls with
+     | some (_, _) => if (ls.takeWhile (fun l => !l.site.startsWith "rcv.")).any (fun l => l.site == "sf.tsdtor" || l.site == "lt.sopdtor") then
+         ["stored value / successor operation state destroyed before the downstream completion"] else []
+     | none => if cnt "sf.tsdtor" + cnt "lt.sopdtor" > 0 then ["stored value / successor operation state destroyed although nothing was delivered"] else [])
+  let m6 := if c.get "life" != "1" then [] else
+    match (ls.filter (·.site == "life.oprel")).getLast? with
+    | none => if c.status == "ok" then ["life=1 case without a life.oprel note"] else []
+    | some l =>
+      if l.a > 1 then [s!"operation state destroyed {l.a} times"]
+      else if c.status == "ok" && !rcvs.isEmpty && (l.a != 1 || cnt "sf.tsdtor" != cnt "sf.store" || cnt "lt.sopdtor" != cnt "lt.conn") then
+        [s!"completed with a self-deleting receiver: operation state destroyed {l.a} time(s), stored value {cnt "sf.store"} / {cnt "sf.tsdtor"}, successor operation state {cnt "lt.conn"} / {cnt "lt.sopdtor"} (constructed / destroyed; exactly once expected)"]
+      else []
+  m0 ++ m1 ++ m3 ++ m3b ++ m4 ++ m5 ++ m6
+
+def runLT (c : Case) (ls : List Line) : String :=
+  let onErr := c.get "kind" == "let_error"
+  let evs := toEventsLT onErr none ls
+  let mon := monitorsLT c ls
+  let monS := if mon.isEmpty then "monitors ok" else "monitors FAIL: " ++ " | ".intercalate mon
+  let cfg : LetLife.Cfg := { selfdel := c.get "life" == "1", onError := onErr }
+  match accept LetLife.step (LetLife.init cfg) evs 0 with
+  | .error (i, raw) => s!"case {c.id} reject {i} [{raw}] ; {monS}"
+  | .ok s =>
+    let cnt (site : String) : Nat := (ls.filter (·.site == site)).length
+    let rcvs := ls.filter (fun l => l.site.startsWith "rcv.")
+    -- let_error: the stored exception_ptr has no observable construction / destruction
+    let countsOk := (onErr || (s.tsCtor == cnt "sf.store" && s.tsDtor == cnt "sf.tsdtor")) && s.sopCtor == cnt "lt.conn" &&
+      s.sopDtor == cnt "lt.sopdtor" && s.delivered == rcvs.length
+    let relOk := match (ls.filter (·.site == "life.oprel")).getLast? with
+      | none => c.get "life" != "1" || c.status != "ok"
+      | some l => l.a.toNat == s.nfree && (l.a == 1) == s.freed
+    let doneOk := s.predSig.isNone || (s.sopArmed && s.succSig.isNone) || s.delivered == 1
+    let resOk := s.delivered == 0 || (s.result.isSome && s.result == LetLife.expected s)
+    let fin := if c.status == "ok" then
+        (if s.uaf then "final MISMATCH: model reached touch-after-release"
+         else if s.hollow then "final MISMATCH: model completed a moved-from receiver"
+         else if !countsOk then s!"final MISMATCH: model counters (stored {s.tsCtor}/{s.tsDtor}, successor op {s.sopCtor}/{s.sopDtor}, delivered {s.delivered}) disagree with the run"
+         else if !relOk then s!"final MISMATCH: model freed={s.freed} nfree={s.nfree} disagrees with the run's life.oprel"
+         else if !doneOk then "final MISMATCH: everything completed but the model has no downstream completion"
+         else if !resOk then "final MISMATCH: model result is not the denoted completion"
+         else if (List.range c.threads.length).all (fun t => s.pc t == .fin) then "final ok"
+         else "final MISMATCH: run ended but model threads are not finished")
+      else s!"final status {c.status}"
+    s!"case {c.id} accept {evs.length} ; {fin} ; {monS}"
+
 def runCase (c : Case) : String :=
   let parsed := c.lines.map parseLine
   if parsed.any Option.isNone then s!"case {c.id} reject 0 malformed-line ; monitors FAIL: malformed line" else
   let ls := parsed.filterMap id
+  if c.get "kind" == "schedule_from" then runSF c ls else
+  if c.get "kind" == "let_value" || c.get "kind" == "let_error" then runLT c ls else
   if c.get "kind" == "when_all" || c.get "kind" == "when_all_vector" then runWA c ls else runShared c ls
 
 end Driver.SharedDrv
